@@ -535,7 +535,9 @@ func c19ExactMatch(c *Ctx, pk *packages.Package, nt *types.Named) {
 				name = funcIDFull(callee)
 			}
 			switch {
-			case callee != nil && callee.Pkg() != nil && (callee.Pkg().Path() == "strings" || callee.Pkg().Path() == "regexp" || callee.Pkg().Path() == "path" || callee.Pkg().Path() == "path/filepath"):
+			case callee != nil && callee.Pkg() != nil && !strings.HasPrefix(callee.Pkg().Path(), modPath) && callee.Pkg().Path() != "fmt" && callee.Pkg().Path() != "log/slog" && callee.Pkg().Path() != "errors":
+				// strings, regexp, path, net (SplitHostPort), net/url, ...: the address is taken apart or rewritten
+				// before the lookup, so the match is no longer on the address as given
 				bad = "passed to " + name + " (non-exact matching)"
 			case strings.Contains(strings.ToLower(exprString(x.Fun)), "getmachineforname"):
 				uses = append(uses, "netrc machine name")
